@@ -46,8 +46,7 @@
   Variant[A,B], Array[T]) with a decidable instance test (`inst`), the assignability the override check uses (`asg`) and
   the rewriting of the named constructor's init Struct (`tyInit`); nothing else in this file depends on which.
   Member functions: `Def.funcs`, `findFn`, `assertOverrideFn`, `defineFuncs` (interfaces: Model/ObjectFuncs).
-  Not modelled (outside the universe the driver accepts): `equality` / `serialization` naming a function (implementation-only
-  `@msg`), annotations, a hash literal with a repeated key, an array given through `constants => {}` (the type inferred for it is C04's business).
+  Not modelled (outside the universe the driver accepts): annotations, a hash literal with a repeated key, an array given through `constants => {}` (the type inferred for it is C04's business).
   Core-only file (linked into the driver).
 -/
 namespace Pcore.Object
@@ -160,7 +159,7 @@ inductive Code where
   | serializationAttributeNotFound | serializationBadKind | serializationRequiredAfterOptional
   | serializationDuplicateAttribute
   | illegalArguments | missingRequiredAttribute | attributeHasNoValue | instanceDoesNotRespond
-  | overrideMemberMismatch | memberNameConflict
+  | overrideMemberMismatch | memberNameConflict | equalityNotAttribute | serializationNotAttribute
   | fault
   deriving DecidableEq, Repr, Inhabited
 
@@ -187,6 +186,8 @@ def Code.toString : Code → String
   | .instanceDoesNotRespond => "reported INSTANCE_DOES_NOT_RESPOND"
   | .overrideMemberMismatch => "reported OVERRIDE_MEMBER_MISMATCH"
   | .memberNameConflict => "reported MEMBER_NAME_CONFLICT"
+  | .equalityNotAttribute => "reported EQUALITY_NOT_ATTRIBUTE"
+  | .serializationNotAttribute => "reported SERIALIZATION_NOT_ATTRIBUTE"
   | .fault => "fault"
 
 /-! ### definitions and attributes -/
@@ -406,6 +407,26 @@ def EqDecl.toList? : EqDecl → Option (List String)
   | .one s => some [s]
   | .many l => some l
 
+/-- the member an `equality` / `serialization` entry names is a FUNCTION: `t.attributes.Get` misses, and `t.functions.Get` or
+    `parentMembers.Get` answers a function -/
+def isFnName (own : List Attr) (ownF : List FnDecl) (parent : OType) (n : String) : Bool :=
+  !own.any (fun a => a.name == n) && (ownF.any (fun f => f.name == n) || fnShadow parent n)
+
+/-- the equality loop with functions in sight: the names are processed in order, each completely; the first name that is a
+    function ends the loop with EQUALITY_NOT_ATTRIBUTE unless an earlier name already raised -/
+def checkEqualityF (own : List Attr) (ownF : List FnDecl) (parent : OType) (l : List String) : Except Code Unit :=
+  let pre := l.takeWhile (fun n => !isFnName own ownF parent n)
+  match checkEquality own parent pre with
+  | .error c => .error c
+  | .ok () => if pre.length < l.length then .error .equalityNotAttribute else .ok ()
+
+/-- the serialization loop likewise (SERIALIZATION_NOT_ATTRIBUTE) -/
+def checkSerializationF (own : List Attr) (ownF : List FnDecl) (parent : OType) (l : List String) : Except Code Unit :=
+  let pre := l.takeWhile (fun n => !isFnName own ownF parent n)
+  match checkSerialization own parent false [] pre with
+  | .error c => .error c
+  | .ok () => if pre.length < l.length then .error .serializationNotAttribute else .ok ()
+
 /-- the resolved parent type (`[]` = none) -/
 def parentOf (env : List OType) (d : Def) : OType :=
   match d.parent with
@@ -481,10 +502,10 @@ def define (env : List OType) (d : Def) : Except Code OType :=
     match defineFuncs parent (d.attrs.map (·.name)) d.funcs with
     | .error c => .error c
     | .ok () =>
-    match checkEquality attrs parent (d.equality.toList?.getD []) with
+    match checkEqualityF attrs d.funcs parent (d.equality.toList?.getD []) with
     | .error c => .error c
     | .ok () =>
-      match checkSerialization attrs parent false [] (d.serialization.getD []) with
+      match checkSerializationF attrs d.funcs parent (d.serialization.getD []) with
       | .error c => .error c
       | .ok () =>
         .ok ({ id := env.length, attrs := attrs, equality := d.equality.toList?,
